@@ -4201,12 +4201,11 @@ fn get_arg_type(s: &str, quoted: bool) -> ArgType {
         }
         prevc = Some(c)
     }
-    if numeric {
-        if foundperiod {
-            ArgType::Float
-        } else {
-            ArgType::Integer
-        }
+    //only what really converts is numeric (not a lone minus sign, not a number too large for the integer type)
+    if numeric && foundperiod && s.parse::<f64>().is_ok() {
+        ArgType::Float
+    } else if numeric && !foundperiod && s.parse::<isize>().is_ok() {
+        ArgType::Integer
     } else {
         match s {
             "null" => ArgType::Null,
